@@ -37,6 +37,15 @@ CLAIMED = {
         'Trusted: importlib finders (the oracle jedi itself calls), os.path.sep == "/", str split/join inverse, '
         're.sub pure; import_module ordering contracts not yet under contract (not_decided).',
         'contract-based deductive verification (PyVC VC generation from the real AST + z3/cvc5)', 'DESIGN.md 6/C10'),
+    'C20': (
+        'Deductive, unbounded: _remove_duplicates_from_path proved by loop invariant + generator rule (no entry '
+        'twice, nothing invented, every input entry present, first entry stays first); Project._get_sys_path proved '
+        'against its composition (project dir first when smart, explicit-or-environment entries, added_sys_path, '
+        'script ancestors strictly inside the project) calling the dedup contract; _get_base_sys_path strips only ""; '
+        'save/load key-set and JSON-ability obligations decided on the AST.',
+        'Trusted: pathlib model, json round trip, memo decorator transparent, discover_buildout_paths abstract; '
+        'full order of the middle segment and the consumers of the path are not yet under contract.',
+        'contract-based deductive verification (PyVC) + AST obligations', 'DESIGN.md 6/C20'),
 }
 
 NOT_APPLICABLE = {
